@@ -467,6 +467,38 @@ async fn test_delete_objects() -> Result<()> {
 
 #[tokio::test]
 #[tracing::instrument]
+async fn test_put_object_long_key() -> Result<()> {
+    use aws_sdk_s3::error::ProvideErrorMetadata;
+
+    let _guard = serial().await;
+
+    let c = Client::new(config());
+    let bucket = format!("test-long-key-{}", Uuid::new_v4());
+    let bucket = bucket.as_str();
+    create_bucket(&c, bucket).await?;
+
+    // the side files of this object cannot be named: the object is refused and nothing is written
+    let key = "L".repeat(200);
+    let err = c
+        .put_object()
+        .bucket(bucket)
+        .key(key.as_str())
+        .body(ByteStream::from_static(b"hello"))
+        .send()
+        .await
+        .unwrap_err();
+    assert_eq!(err.code(), Some("KeyTooLongError"));
+
+    let ans = c.list_objects_v2().bucket(bucket).send().await?;
+    assert!(ans.contents().is_empty());
+
+    delete_bucket(&c, bucket).await?;
+
+    Ok(())
+}
+
+#[tokio::test]
+#[tracing::instrument]
 async fn test_multipart() -> Result<()> {
     let _guard = serial().await;
 
